@@ -100,7 +100,7 @@ fn raw_negotiate(peer: &UnixStream) -> bool {
         (spec::fe::GET_FEATURES, vec![], true),
         (spec::fe::SET_FEATURES, spec::p_u64(1 << 30), false),
         (spec::fe::GET_PROTOCOL_FEATURES, vec![], true),
-        (spec::fe::SET_PROTOCOL_FEATURES, spec::p_u64(spec::PF_CONFIG | spec::PF_MQ), false),
+        (spec::fe::SET_PROTOCOL_FEATURES, spec::p_u64(spec::PF_CONFIG | spec::PF_MQ | spec::PF_SHMEM | spec::PF_SHARED_OBJECT), false),
     ];
     for (code, body, has_reply) in steps {
         if sys::send_all(fd, &spec::msg(code, spec::F_VERSION1, &body), &[]).is_err() {
@@ -431,7 +431,15 @@ fn disconnect_cases(cfg: &Cfg) {
         }
     }
     // a request error: the peer must observe end-of-stream, wait reports the error
-    for bad in [spec::msg(99, spec::F_VERSION1, &[]), spec::msg(spec::fe::SET_VRING_ENABLE, spec::F_VERSION1, &spec::p_vring_state(0, 7)), spec::msg(spec::fe::GET_FEATURES, 0, &[])] {
+    // (the last one is a well-formed reply-bearing request whose device handler fails - the recording
+    // backend keeps the trait's default get_shmem_config(), which returns an error - and for which the
+    // protocol has no in-band failure encoding)
+    for bad in [
+        spec::msg(99, spec::F_VERSION1, &[]),
+        spec::msg(spec::fe::SET_VRING_ENABLE, spec::F_VERSION1, &spec::p_vring_state(0, 7)),
+        spec::msg(spec::fe::GET_FEATURES, 0, &[]),
+        spec::msg(spec::fe::GET_SHMEM_CONFIG, spec::F_VERSION1, &[]),
+    ] {
         idx += 1;
         if !cfg.mine(idx) {
             continue;
@@ -451,6 +459,10 @@ fn disconnect_cases(cfg: &Cfg) {
             }
             eof
         });
+        if !eof {
+            // still serving: close our end so that wait() below cannot block
+            unsafe { libc::shutdown(peer.as_raw_fd(), libc::SHUT_RDWR) };
+        }
         let r = s.daemon.wait();
         report::eval(1);
         report::count("request_error", 1);
